@@ -351,8 +351,13 @@ func VerifHarness_C07_O4() {
 	ev.Body.Timestamp = 4242
 	bh, _ := ev.Body.Hash()
 	ev.Signature = verifSignature(vn.keys[0], bh, true)
-	// fresh object so that no cached hash survives the tampering
+	// either a fresh object (no cached hash survives the tampering) or the very
+	// object whose hash was already computed and memoised before the tampering
 	cand := &Event{Body: ev.Body, Signature: ev.Signature}
+	if verifChoice("tamperInPlaceAfterHashing", 2) == 1 {
+		cand = ev
+		_ = cand.Hex()
+	}
 	cand.Body.Transactions = [][]byte{[]byte("ab"), []byte("c")}
 	cand.Body.InternalTransactions = []InternalTransaction{itx}
 	cand.Body.BlockSignatures = []BlockSignature{bsig}
@@ -411,6 +416,8 @@ func VerifHarness_C07_O4() {
 	} else {
 		verifAssert("tampered-after-signing-refused", err != nil)
 		verifAssert("tampered-refusal-leaves-dag-unchanged", verifDigestEq(before, d.digest()))
+		_, gerr := vn.h.Store.GetEvent(ev.Hex())
+		verifAssert("tampered-event-not-stored-under-the-original-hash", gerr != nil)
 	}
 	verifReach("end")
 }
